@@ -25,7 +25,7 @@ class Emission:
             return t[1]
         # with_store_mux_on_sources keeps each subscriber's observer in a Source record
         # that is bound to the handler with functools.partial
-        if t[0] == "attr" and t[2] == "observer" and t[1][0] == "bound":
+        if t[0] == "attr" and t[2] == "observer" and t[1][0] in ("bound", "loopvar", "compvar"):
             return "down"
         return show(t)
 
@@ -71,8 +71,12 @@ def construct_id(spec, kind=None, cfg=None, extra=None):
 def mk_finding(rule, spec, kind, cfg, path, message, node=None, extra=None):
     where = spec.module.where(node if node is not None else spec.fn)
     tr = ["handler %s kind=%s config=%s" % (spec.qualname, kind, cfg_str(cfg or {}))] + (trace_of(path) if path is not None else [])
-    return Finding(rule, construct_id(spec, kind, cfg, extra), where, message, tr,
-                   {"kind": kind, "config": cfg or {}})
+    detail = {"kind": kind, "config": cfg or {}}
+    if path is not None:
+        un = [e for e in path.trace if e.k == "call" and e.d.get("unresolved")]
+        if un:
+            detail["unresolved"] = "%s calls %s, a function value the analysis could not resolve" % (un[0].where(), show(un[0].func))
+    return Finding(rule, construct_id(spec, kind, cfg, extra), where, message, tr, detail)
 
 
 def is_grouping(site):
@@ -87,7 +91,7 @@ def reached_by_site(ctx, mux_only=False):
     """{site: functions the path enumeration enters from the subscribe function or a handler of the site}: the
     handlers themselves, helpers they call, per-event functions chosen through a dispatch table, and handlers handed to
     a shared operator template by its callers."""
-    key = ("reached", mux_only)
+    key = ("reached", mux_only, tuple(sorted(ctx.scope)) if ctx.scope else None)
     if key in ctx._cache:
         return ctx._cache[key]
     from ..model import valuations
